@@ -236,7 +236,7 @@ static void family_tasks(std::vector<Task>& tasks, const Config& cfg, const std:
   const bool is_req = fam.find("req") == 0;
   if (is_req) for (int si = 0; si < 3; ++si) {
     const char* shp[] = {"sorted", "zigzag", "mixed"};
-    QuantSys<Fam> sys; const int ln = cfg.quick() ? 460 : 900; sys.nm = tag + "/long-smalldomain-" + shp[si] + "/n" + str(ln); sys.slot_cfgs.push_back(base); sys.light_check = true; sys.check_published = true;
+    QuantSys<Fam> sys; const int ln = cfg.quick() ? (si == 2 ? 280 : 460) : 900; sys.nm = tag + "/long-smalldomain-" + shp[si] + "/n" + str(ln); sys.slot_cfgs.push_back(base); sys.light_check = true; sys.check_published = true;
     std::vector<std::string> dn; distinct_domain(sys, 6, dn); sys.add_update_ops(0, false);
     std::vector<int> ix = shape_idx(shp[si], ln); std::vector<std::string> seq; for (int i = 0; i < ln; ++i) seq.push_back("U0:" + dn[(size_t)((long long)ix[i] * 6 / ln)]);
     Task t; t.name = sys.nm; t.fn = [sys, seq, &cfg](Report& rep) { live_history<Fam>(sys, seq, 0, 20, rep, cfg); }; tasks.push_back(t);
@@ -436,5 +436,7 @@ int main(int argc, char** argv) {
     const int rks[] = {12, 20, 50}; int rk = rks[ki];
     for (int h = 0; h < 2; ++h) { Task t; t.name = "long/req/k" + str(rk) + (h ? "/hra" : "/lra"); std::string nm = t.name; t.fn = [nm, rk, h, N, S, &cfg](Report& rep) { long_req(nm, rk, h == 1, N, S, rep, cfg); }; tasks.push_back(t); }
   }
+  // the longest tasks first, so that the budget ends no task in the middle
+  std::stable_partition(tasks.begin(), tasks.end(), [](const Task& t) { return t.name == "meta" || t.name.find("long-smalldomain") != std::string::npos; });
   return run_tasks(cfg, "C08", tasks);
 }
